@@ -105,7 +105,7 @@ def scan(lines, cfg):
     for ln, line in enumerate(lines, start=1):
         col = 0
         n = len(line)
-        first_on_line = True
+        first_real = True      # no non-skipped token seen on this line yet
         if n == 0 or not line.strip(SPACE_CHARS):
             if len(lines) > 1:
                 feats.add("blank-line")
@@ -117,12 +117,12 @@ def scan(lines, cfg):
                     continue
                 end = (ln, idx + 3)
                 toks.append(RTok("COMMENT", None, span_start, end, skipped=True, is_span=True))
+                feats.add("skipped-token")
                 feats.add("span:closes-same-line" if span_start[0] == ln else "span:closes-later-line")
                 if span_first_on_line:
                     feats.add("span:opener-first-on-line")
                 in_span = False
                 col = idx + 2
-                first_on_line = False
                 continue
             ch = line[col]
             start = (ln, col + 1)
@@ -131,10 +131,10 @@ def scan(lines, cfg):
                 while j < n and line[j] in SPACE_CHARS:
                     j += 1
                 toks.append(RTok("SPACE", line[col:j], start, (ln, j + 1), skipped=True))
+                feats.add("skipped-token")
                 if j == n:
                     feats.add("trailing-blanks-tokenized")
                 col = j
-                first_on_line = False
                 continue
             if "a" <= ch <= "z":
                 j = col
@@ -158,23 +158,22 @@ def scan(lines, cfg):
                 j = n
                 tok = RTok("COMMENT", line[col:], start, (ln, j + 1), skipped=True)
                 feats.add("eol-comment")
+                feats.add("skipped-token")
             elif ch == "/" and cfg.comments and line[col + 1:col + 2] == "*":
                 in_span = True
                 span_start = start
-                span_first_on_line = first_on_line
+                span_first_on_line = (col == 0)
                 col += 2
-                first_on_line = False
                 continue
             else:
                 res.status, res.error_line = "lexerr", ln
                 return res
-            if first_on_line and ln > 1:
-                feats.add("line>1:first-token-at-col-1" if col == 0 else "line>1:first-token-indented")
-            if first_on_line and ln == 1:
-                feats.add("line1:first-token-at-col-1" if col == 0 else "line1:first-token-indented")
+            if first_real and not tok.skipped:
+                which = "line>1" if ln > 1 else "line1"
+                feats.add(which + (":first-token-at-col-1" if col == 0 else ":first-token-indented"))
+                first_real = False
             toks.append(tok)
             col = j
-            first_on_line = False
     if in_span:
         res.status = "unclosed"
         return res
